@@ -108,9 +108,12 @@ def shrink(prop, st, tier, seed, wd, inp):
 def run_property(prop, tier, replay=None):
     t0 = time.time()
     seed = int(os.environ.get("VERIF_SEED", "1") or "1")
-    wd = os.path.join(V.WORK, prop.pid)
+    wd = os.path.join(V.WORK, prop.pid + V.REPO_TAG)
     os.makedirs(wd, exist_ok=True)
-    os.makedirs(os.path.join(V.VERIF, "replays"), exist_ok=True)
+    # runs against a scratch copy (VERIF_REPO, seeded-change trials) keep their replays and evidence apart:
+    # evidence/ and replays/ describe /repo only
+    out_root = V.VERIF if not V.REPO_TAG else os.path.join(V.WORK, "scratch" + V.REPO_TAG)
+    os.makedirs(os.path.join(out_root, "replays"), exist_ok=True)
     known = load_known()
     import glob, shutil
     if replay:
@@ -118,7 +121,7 @@ def run_property(prop, tier, replay=None):
         keep = os.path.join(wd, "replay_input.json")
         shutil.copyfile(replay, keep)
         replay = keep
-    for old in glob.glob(os.path.join(V.VERIF, "replays", "%s_*.json" % prop.pid)):
+    for old in glob.glob(os.path.join(out_root, "replays", "%s_*.json" % prop.pid)):
         os.remove(old)
     violations = []       # (replay path, note, no_input)
     known_hits = []
@@ -126,7 +129,7 @@ def run_property(prop, tier, replay=None):
     cov = {"streams": {}, "histogram": {}}
 
     def replay_path(name):
-        return os.path.join(V.VERIF, "replays", "%s_%s.json" % (prop.pid, name))
+        return os.path.join(out_root, "replays", "%s_%s.json" % (prop.pid, name))
 
     with V.Lock("global"):
         # 1. harness
@@ -232,6 +235,8 @@ def run_property(prop, tier, replay=None):
                         inp = m["inputs"][i]
                         cls = st.classify(inp) if st.classify else None
                         kf = next((f for f in known["findings"] if f["property"] == prop.pid and f.get("class") == cls), None) if cls else None
+                        if os.environ.get("VERIF_IGNORE_KNOWN"):
+                            kf = None     # development aid (repairing a recorded finding): report everything
                         if kf:
                             if cls not in done_classes:
                                 known_hits.append(kf)
@@ -279,8 +284,8 @@ def run_property(prop, tier, replay=None):
         "assumptions": prop.assumptions,
         "wall_s": round(wall, 1), "violations": len(violations),
     }
-    os.makedirs(os.path.join(V.VERIF, "evidence"), exist_ok=True)
-    json.dump(ev, open(os.path.join(V.VERIF, "evidence", prop.pid + ".json"), "w"), indent=1)
+    os.makedirs(os.path.join(out_root, "evidence"), exist_ok=True)
+    json.dump(ev, open(os.path.join(out_root, "evidence", prop.pid + ".json"), "w"), indent=1)
     printed = set()
     for f in known_hits:
         if f.get("id") in printed:
